@@ -436,8 +436,10 @@ def write_replay(prop, kind, payload):
 
 
 def write_evidence(prop, ev):
-    os.makedirs(os.path.join(VERIF, "evidence"), exist_ok=True)
-    with open(os.path.join(VERIF, "evidence", f"{prop}.json"), "w") as f:
+    # VERIF_EVIDENCE_DIR: used by tools/seeded_eval.py so that runs against a deliberately broken tree do not overwrite the evidence
+    d = os.environ.get("VERIF_EVIDENCE_DIR") or os.path.join(VERIF, "evidence")
+    os.makedirs(d, exist_ok=True)
+    with open(os.path.join(d, f"{prop}.json"), "w") as f:
         json.dump(ev, f, indent=1)
 
 
